@@ -30,6 +30,7 @@ class Term:
         self.g = {}
         self.visible = True
         self.saved = (0, 0, False, {})
+        self.saved_alt = (0, 0, False, {})      # xterm keeps one saved cursor per screen
         self.alt = None
         self.replies = []
 
@@ -52,6 +53,7 @@ class Term:
             self.scroll_up()
 
     def put_cell(self, cell):
+        self.g = dict(cell[1])          # the graphic state in force when this character arrives
         if self.pw:
             self.index()
             self.c, self.pw = 0, False
@@ -93,9 +95,12 @@ class Term:
         elif k == "show":
             self.visible = True
         elif k == "decsc":
-            self.saved = (self.r, self.c, self.pw, dict(self.g))
+            if self.alt is None:
+                self.saved = (self.r, self.c, self.pw, dict(self.g))
+            else:
+                self.saved_alt = (self.r, self.c, self.pw, dict(self.g))
         elif k == "decrc":
-            r, c, self.pw, g = self.saved
+            r, c, self.pw, g = self.saved if self.alt is None else self.saved_alt
             self.r, self.c = self._clamp(r, c)
             self.g = dict(g)
         elif k == "altEnter":
@@ -105,7 +110,10 @@ class Term:
                 self.grid = [[self.erased()] * self.w for _ in range(self.h)]
         elif k == "altLeave":
             if self.alt is not None:
-                self.grid, self.alt = self.alt, None
+                # the main screen as it was; cells it never had (the size changed meanwhile) are blank
+                main, self.alt = self.alt, None
+                self.grid = [[main[r][c] if r < len(main) and c < len(main[r]) else BLANK for c in range(self.w)]
+                             for r in range(self.h)]
                 r, c, self.pw, g = self.saved
                 self.r, self.c = self._clamp(r, c)
                 self.g = dict(g)
@@ -127,6 +135,27 @@ class Term:
             for j, cell in enumerate(row[:w]):
                 self.grid[i][j] = cell
         self.r, self.c = self._clamp(self.r, self.c)
+        self.pw = False
+
+    def move(self, k, new_h):
+        """the environment's move (mirror of `moveContent` in lean/Curtsies/Driver/Window.lean): the terminal becomes
+        new_h rows high and its content, the cursor with it, moves by k rows (k<0 up into the scrollback, k>0 down,
+        rows coming back from the scrollback, blank when it is exhausted)"""
+        w = self.w
+        if k <= 0:
+            u = -k
+            self.scrollback += [list(r) for r in self.grid[:min(u, self.h)]]
+            rows = [list(r) for r in self.grid[u:]]
+            self.r = max(self.r - u, 0)
+        else:
+            p = min(k, len(self.scrollback))
+            pulled = self.scrollback[len(self.scrollback) - p:]
+            self.scrollback = self.scrollback[:len(self.scrollback) - p]
+            rows = [[BLANK] * w for _ in range(k - p)] + [list(r) for r in pulled] + [list(r) for r in self.grid]
+            self.r = self.r + k
+        rows = [(row + [BLANK] * w)[:w] for row in rows]
+        self.grid = (rows + [[BLANK] * w for _ in range(new_h)])[:new_h]
+        self.h = new_h
         self.pw = False
 
     def screen(self):
